@@ -362,6 +362,9 @@ KINDS = {
     "DF": "mk('DF', '{l}')",
     # instances (and the class object itself) of a class whose metaclass journals hashing and comparing the class
     "MH": "MH('{l}')", "MHclass": "MH",
+    # builtin wrappers (exact builtin types) that forward the container protocol to a program object: a read-only proxy of a journaling
+    # dict, a ChainMap-free `reversed` / iterator over a journaling list
+    "MP": "mk('MP', '{l}')", "IT": "mk('IT', '{l}')",
 }
 HASHABLE = {"MH", "SK", "GA", "GN", "CP", "CPlie", "CPraise", "Lazy", "DS", "TT", "HB", "MI", "MIclass", "GAcall", "GNcall", "GNfab"}
 CALLABLE = {"HB", "GAcall", "GNcall", "GNfab", "MIclass"}
@@ -381,6 +384,16 @@ def mk(kind, label):
         import collections
 
         return collections.defaultdict(_factory(label))
+    if kind == "MP":
+        import types
+
+        obj = TD(a=1, b="x")
+        obj._label = label
+        return types.MappingProxyType(obj)
+    if kind == "IT":
+        obj = TL([1, "x"])
+        obj._label = label
+        return list.__iter__(obj)  # a list_iterator over the program's list: consuming it would be visible to the program
     if kind == "MIclass":
         return MI
     if kind == "MHclass":
